@@ -279,7 +279,12 @@ pub fn evaluate_expression_value<S: GraphSnapshot>(
             crate::ast::ExistsExpression::Subquery(query) => {
                 match crate::query_api::exists_subquery_has_rows(query, row, snapshot, params) {
                     Ok(has_rows) => Value::Bool(has_rows),
-                    Err(_) => Value::Null,
+                    Err(err) => {
+                        // The evaluator cannot return an error: hand it to the runtime guard
+                        // of the enclosing plan node instead of turning it into `null` for good.
+                        params.record_failure(err);
+                        Value::Null
+                    }
                 }
             }
         },
